@@ -1,7 +1,9 @@
 /-
   The creator's re-evaluation loop (fix eb6d1d1) in KB.Sys: why a create is answered "condition failed".
   `keyState g0 l k` = state of key `k` (revision, deleted?) after the applied writes `l` (`wlog` prefix), as its index
-  record tells; `Refuses st rev` = that state refuses a create stamped `rev` (live, or deleted at / above `rev`).
+  record tells; `Live st` = the key is live in that state; `Refuses st rev` = that state refused a create stamped `rev`
+  BEFORE /repo 42e5238 (live, or deleted at / above `rev`); `Why cf st rev` = the one or the other by the flag
+  `Cfg.creatorTombAboveIsCf` (since 42e5238 a deletion record at / above `rev` is an ERROR, not a failed condition).
   Invariant `JE` of reachable states (relative to the store invariant `SysStore.SInv`): per in-flight request (`CJ`) —
   at `createOver rev old att` the value `old` was the key's record at some moment `n` of the request and at least `att`
   writes to the key were applied between the request's begin and `n`; at `createRecheck rev att` at least `att + 1`;
@@ -32,6 +34,30 @@ def keyState (g0 : G) (l : List WLog) (k : Bytes) : Option (Nat × Bool) :=
 
 /-- this state of its key refuses a create stamped `rev`: the key is live, or deleted at or above `rev` -/
 def Refuses (st : Option (Nat × Bool)) (rev : Nat) : Prop := ∃ p t, st = some (p, t) ∧ (t = false ∨ rev ≤ p)
+
+/-- the key is live in this state -/
+def Live (st : Option (Nat × Bool)) : Prop := ∃ p, st = some (p, false)
+
+instance (st : Option (Nat × Bool)) : Decidable (Live st) :=
+  match st with
+  | none => isFalse (by rintro ⟨p, h⟩; cases h)
+  | some (p, true) => isFalse (by rintro ⟨p', h⟩; cases h)
+  | some (p, false) => isTrue ⟨p, rfl⟩
+
+/-- why a create stamped `rev` may be answered "condition failed" in this state of its key: `cfAbove = false` (the
+creator since /repo 42e5238): the key is live; `cfAbove = true` (before): live, or deleted at / above `rev` -/
+def Why (cfAbove : Bool) (st : Option (Nat × Bool)) (rev : Nat) : Prop :=
+  ∃ p t, st = some (p, t) ∧ (t = false ∨ (cfAbove = true ∧ rev ≤ p))
+
+theorem Why.live {st : Option (Nat × Bool)} {rev : Nat} (h : Why false st rev) : Live st := by
+  obtain ⟨p, t, h1, h2 | ⟨h2, _⟩⟩ := h
+  · exact ⟨p, by rw [h1, h2]⟩
+  · cases h2
+
+theorem Why.refuses {st : Option (Nat × Bool)} {rev : Nat} (h : Why true st rev) : Refuses st rev := by
+  obtain ⟨p, t, h1, h2 | ⟨_, h2⟩⟩ := h
+  · exact ⟨p, t, h1, .inl h2⟩
+  · exact ⟨p, t, h1, .inr h2⟩
 
 instance (st : Option (Nat × Bool)) (rev : Nat) : Decidable (Refuses st rev) :=
   match st with
@@ -193,12 +219,12 @@ theorem CJ.mono {g0 : G} {wl : List WLog} {b : Nat} {c : Client} (h : CJ g0 wl b
 
 /-- the justification of a failed condition, at the moment `wl` of the answer -/
 def Just (g0 : G) (wl : List WLog) (k : Bytes) (b rev : Nat) : Prop :=
-  Refuses (keyState g0 wl k) rev ∨ 4 ≤ rewrites k (wl.drop b)
+  Why g0.cfg.creatorTombAboveIsCf (keyState g0 wl k) rev ∨ 4 ≤ rewrites k (wl.drop b)
 
 /-- ... and as recorded for a finished request -/
 def SpanOK (g0 : G) (wl : List WLog) (k : Bytes) (d : Done) (s : Span) : Prop :=
   s.id = d.id ∧ s.rev = d.rev ∧ s.beginLog ≤ s.endLog ∧ s.endLog ≤ wl.length ∧
-    ((∃ n, s.beginLog ≤ n ∧ n ≤ s.endLog ∧ Refuses (keyState g0 (wl.take n) k) d.rev) ∨
+    ((∃ n, s.beginLog ≤ n ∧ n ≤ s.endLog ∧ Why g0.cfg.creatorTombAboveIsCf (keyState g0 (wl.take n) k) d.rev) ∨
      4 ≤ rewrites k ((wl.take s.endLog).drop s.beginLog))
 
 theorem SpanOK.mono {g0 : G} {wl : List WLog} {k : Bytes} {d : Done} {s : Span} (h : SpanOK g0 wl k d s)
@@ -305,7 +331,7 @@ theorem JE.finish {g0 g : G} {c : Client} (h : JE g0 g (some c.id)) (res : Write
       exact ⟨s, by simp [G.finish, hs], hso⟩
     · obtain ⟨hle, hjj⟩ := hj k v hdr kv hk hr
       refine ⟨⟨c.id, rev, g.beginOf c.id, g.wlog.length⟩, by simp [G.finish], rfl, rfl, hle, Nat.le_refl _, ?_⟩
-      show (∃ n, _ ∧ _ ∧ Refuses (keyState g0 (List.take n g.wlog) k) rev) ∨
+      show (∃ n, _ ∧ _ ∧ Why g0.cfg.creatorTombAboveIsCf (keyState g0 (List.take n g.wlog) k) rev) ∨
         4 ≤ rewrites k (List.drop (g.beginOf c.id) (List.take g.wlog.length g.wlog))
       rcases hjj with hj1 | hj2
       · exact .inl ⟨g.wlog.length, hle, Nat.le_refl _, by rw [List.take_length]; exact hj1⟩
@@ -333,7 +359,7 @@ theorem JE.finishCreate {g0 g : G} {c : Client} (h : JE g0 g (some c.id)) (hle :
   · exact h'.finish _ _ (by intro _ _ _ _ _ e; cases e)
 
 /-- the creator looks at the record `old` it found for its key -/
-theorem JE.createSawIndex {g0 g : G} (hp0 : IdxParse g0) {c : Client} (h : JE g0 g (some c.id))
+theorem JE.createSawIndex {g0 g : G} (hp0 : IdxParse g0) (hcfg : g.cfg = g0.cfg) {c : Client} (h : JE g0 g (some c.id))
     (hle : g.beginOf c.id ≤ g.wlog.length) (hrevs : ∀ w ∈ g.wlog, w.rev < 2 ^ 64) (val : Bytes) (rev : Nat)
     (old : Bytes) (att : Nat) (hrec : recOf g0 g.wlog c.kind.key = some old)
     (hatt : att ≤ rewrites c.kind.key (g.wlog.drop (g.beginOf c.id))) :
@@ -352,23 +378,26 @@ theorem JE.createSawIndex {g0 g : G} (hp0 : IdxParse g0) {c : Client} (h : JE g0
         by rw [List.take_length]; exact hatt⟩
     · rename_i hc
       refine h.finishCreate hle _ _ _ _ ?_
-      intro k v _ _ hk _
+      intro k v i cv hk hr
       have hkk : c.kind.key = k := by rw [hk]; rfl
       left
       rw [← hkk, ← hks, hp]
       refine ⟨prevRev, tomb, rfl, ?_⟩
-      cases tomb with
-      | false => exact .inl rfl
-      | true =>
-        right
-        simp only [Bool.true_and, decide_eq_true_eq] at hc
-        omega
+      rcases tombAbove_cases g.cfg tomb with ⟨he, _, _⟩ | ⟨_, ht | hf⟩
+      · rw [he] at hr; cases hr
+      · exact .inl ht
+      · cases tomb with
+        | false => exact .inl rfl
+        | true =>
+          right
+          simp only [Bool.true_and, decide_eq_true_eq] at hc
+          exact ⟨by rw [← hcfg]; exact hf, by omega⟩
 
 /-! ### one client step -/
 
 theorem JInv.stepClient {g0 g : G} (hp0 : IdxParse g0) (hS : SysStore.SInv g0 g) (hb : g.dealt < 2 ^ 64)
-    (hnew : g.cfg.creatorNoReeval = false) (h : JInv g0 g) {c : Client} (hc : c ∈ g.clients) (f : Fault) :
-    JInv g0 (stepClient g c f) := by
+    (hcfg : g.cfg = g0.cfg) (hnew : g0.cfg.creatorNoReeval = false) (h : JInv g0 g) {c : Client} (hc : c ∈ g.clients)
+    (f : Fault) : JInv g0 (stepClient g c f) := by
   have hcj : CJ g0 g.wlog (g.beginOf c.id) c := h.cl c hc (by simp)
   have hle : g.beginOf c.id ≤ g.wlog.length := hcj.1
   have hE := JE.weaken h c.id
@@ -407,7 +436,7 @@ theorem JInv.stepClient {g0 g : G} (hp0 : IdxParse g0) (hS : SysStore.SInv g0 g)
       subst hst hcv
       rw [afterCommit_conflict] at hA ⊢
       split
-      · exact JE.createSawIndex (g := { g with store := g.store }) hp0 hA hle hrevs val rev _ 0
+      · exact JE.createSawIndex (g := { g with store := g.store }) hp0 hcfg hA hle hrevs val rev _ 0
           (by rw [← hrec]; exact hget) (Nat.zero_le _)
       · refine JE.set (g := { g with store := g.store }) (c' := { c with pc := .createReread rev }) hA ⟨hle, ?_⟩
         show recOf g0 g.wlog c.kind.key ≠ none
@@ -423,7 +452,7 @@ theorem JInv.stepClient {g0 g : G} (hp0 : IdxParse g0) (hS : SysStore.SInv g0 g)
     have hpres : recOf g0 g.wlog c.kind.key ≠ none := by simpa [CJ, hpc] using hcj.2
     split
     · rename_i old hget
-      exact JE.createSawIndex hp0 hE hle hrevs val rev old 0 (by rw [← hrec]; exact hget) (Nat.zero_le _)
+      exact JE.createSawIndex hp0 hcfg hE hle hrevs val rev old 0 (by rw [← hrec]; exact hget) (Nat.zero_le _)
     · rename_i hget
       rw [hrec] at hget
       exact absurd hget hpres
@@ -471,14 +500,14 @@ theorem JInv.stepClient {g0 g : G} (hp0 : IdxParse g0) (hS : SysStore.SInv g0 g)
     · rename_i cur hget
       split
       · rename_i hgive
-        rw [hnew] at hgive
+        rw [hcfg, hnew] at hgive
         simp only [Bool.false_or, decide_eq_true_eq] at hgive
         refine hE.finishCreate hle _ _ _ _ ?_
         intro k v _ _ hkk _
         have : c.kind.key = k := by rw [hkk]; rfl
         right
         rw [← this]; omega
-      · exact JE.createSawIndex hp0 hE hle hrevs val rev cur (att + 1) (by rw [← hrec]; exact hget) hcnt
+      · exact JE.createSawIndex hp0 hcfg hE hle hrevs val rev cur (att + 1) (by rw [← hrec]; exact hget) hcnt
     · rename_i hget
       rw [hrec] at hget
       exact absurd hget hpres
@@ -542,6 +571,12 @@ theorem JInv.stepClient {g0 g : G} (hp0 : IdxParse g0) (hS : SysStore.SInv g0 g)
     · exact hE.finish _ _ (by intro k v _ _ e; exact absurd e (hnk k v))
     · exact hE.finish _ _ (by intro k v _ _ e; exact absurd e (hnk k v))
   · exact h
+  · -- `Deal` refused: the request returns without a revision (it is not recorded in `done`)
+    intro _ _
+    refine ⟨?_, hE.dn⟩
+    intro x hx _
+    simp only [G.refuse, List.mem_filter, bne_iff_ne, ne_eq] at hx
+    exact hE.cl x hx.1 (by simpa using fun e => hx.2 e.symm)
 
 /-! ### the other actions, runs -/
 
@@ -557,6 +592,7 @@ theorem JInv.stepRetryRead {g0 g : G} (h : JInv g0 g) : JInv g0 (stepRetryRead g
   · intros; exact h
   · intros; exact h.same rfl rfl rfl rfl rfl
   · intros; exact h.same rfl rfl rfl rfl rfl
+  · intros; exact h
 
 theorem JInv.stepRetryCommit {g0 g : G} (h : JInv g0 g) (f : Fault) : JInv g0 (stepRetryCommit g f) := by
   apply stepRetryCommit_cases
@@ -637,6 +673,7 @@ theorem act_cfg (g : G) (a : Action) : (act g a).cfg = g.cfg := by
       · intros; split <;> simp [hac]
       · intros; split <;> rfl
       · rfl
+      · intros; rfl
   | seq => unfold act KB.stepSeq; simp only []; split <;> rfl
   | retry f =>
     show (KB.stepRetryCommit (KB.stepRetryRead g) f).cfg = g.cfg
@@ -663,8 +700,8 @@ theorem run_cfg (g : G) (s : List Action) : (run g s).cfg = g.cfg := by
   | cons a s ih => exact (ih (act g a)).trans (act_cfg g a)
 
 theorem JInv.act {g0 g : G} (hp0 : IdxParse g0) (h0 : G0OK g0) (hv : KB.SInv g.view) (hS : SysStore.SInv g0 g)
-    (hnew : g.cfg.creatorNoReeval = false) (h : JInv g0 g) (a : Action) (hb : (act g a).dealt < 2 ^ 64) :
-    JInv g0 (act g a) := by
+    (hcfg : g.cfg = g0.cfg) (hnew : g0.cfg.creatorNoReeval = false) (h : JInv g0 g) (a : Action)
+    (hb : (act g a).dealt < 2 ^ 64) : JInv g0 (act g a) := by
   have hb0 : g.dealt < 2 ^ 64 := Nat.lt_of_le_of_lt (SysLag.act_dealt_le g a) hb
   cases a with
   | «begin» id kind =>
@@ -692,21 +729,21 @@ theorem JInv.act {g0 g : G} (hp0 : IdxParse g0) (h0 : G0OK g0) (hv : KB.SInv g.v
     split
     · exact h
     · rename_i c hfind
-      exact h.stepClient hp0 hS hb0 hnew (List.mem_of_find?_eq_some hfind) f
+      exact h.stepClient hp0 hS hb0 hcfg hnew (List.mem_of_find?_eq_some hfind) f
   | seq => exact h.stepSeq
   | retry f => exact h.stepRetryRead.stepRetryCommit f
   | retryRead => exact h.stepRetryRead
   | retryCommit f => exact h.stepRetryCommit f
 
 theorem JInv.run {g0 g : G} (hp0 : IdxParse g0) (h0 : G0OK g0) (hv : KB.SInv g.view) (hS : SysStore.SInv g0 g)
-    (hnew : g.cfg.creatorNoReeval = false) (h : JInv g0 g) (sched : List Action)
+    (hcfg : g.cfg = g0.cfg) (hnew : g0.cfg.creatorNoReeval = false) (h : JInv g0 g) (sched : List Action)
     (hb : (run g sched).dealt < 2 ^ 64) : JInv g0 (run g sched) := by
   induction sched generalizing g with
   | nil => exact h
   | cons a s ih =>
     have hb1 : (KB.act g a).dealt < 2 ^ 64 := Nat.lt_of_le_of_lt (SysLag.run_dealt_le (KB.act g a) s) hb
-    exact ih (act_P KB.SInv.closed a hv) (hS.act h0 hv a) (by rw [act_cfg]; exact hnew)
-      (h.act hp0 h0 hv hS hnew a hb1) hb
+    exact ih (act_P KB.SInv.closed a hv) (hS.act h0 hv a) (by rw [act_cfg]; exact hcfg)
+      (h.act hp0 h0 hv hS hcfg hnew a hb1) hb
 
 theorem JInv.reachable {g0 g : G} (hi : C02.Init g0) (hs : C02.StoreOK g0) (hr : Reachable g0 g)
     (hnew : g0.cfg.creatorNoReeval = false) (hb : g.dealt < 2 ^ 64) : JInv g0 g := by
@@ -717,7 +754,7 @@ theorem JInv.reachable {g0 g : G} (hi : C02.Init g0) (hs : C02.StoreOK g0) (hr :
     · intro c hc; rw [hcl] at hc; cases hc
     · intro d hdm; rw [hd] at hdm; cases hdm
   exact hinit.run (IdxParse.of_storeOK hs) (G0OK.of_storeOK hs) (vinv_init hi)
-    (SysStore.SInv.init hi (G0OK.of_storeOK hs)) hnew sched hb
+    (SysStore.SInv.init hi (G0OK.of_storeOK hs)) rfl hnew sched hb
 
 /-! ### the sequential model: run alone, the creator never re-enters its loop -/
 
